@@ -14,7 +14,7 @@ CLAIMED = {
     # id: (technique, level text, level note, design ref)
     "C01": (
         "deterministic simulation: seeded adversarial-history search + terminal oracle",
-        "Seeded search over simulated runs of PaVeBa / PaVeBaGP / PaVeBaPartialGP / Auer against adversarial environments (boundary-hugging, anisotropic, twin, near-eps histories; injected solver failures) that keep the truth inside every displayed region (hypothesis monitored per round); at termination the returned P is judged by independent gap / cone-dominance oracles. A clean batch is evidence over the sampled histories, not a proof.",
+        "Seeded search over simulated runs of PaVeBa / PaVeBaGP / PaVeBaPartialGP / Auer against adversarial environments (boundary- and corner-hugging, anisotropic, twin, near-eps histories) that keep the truth inside every displayed region (hypothesis monitored per round; solver-fault rate 0 here); at termination the returned P is judged by independent gap / cone-dominance oracles. Includes a dedicated hunt (rectangles + obtuse cones + gaps in (eps, eps*W alpha/alpha)) that exhibits the open rectangle-slack finding. A clean batch is evidence over the sampled histories, not a proof.",
         "Trusted: sim/oracles.py (NNLS alpha, gap, dominance), the validity monitor, numerical bands; histories limited to the adversary families of DESIGN.md 3.3, K<=8, m<=3, <=400 rounds.",
         "5/C01",
     ),
@@ -50,7 +50,7 @@ CLAIMED = {
     ),
     "C08": (
         "deterministic simulation of the noise seam: per-step Pareto oracle + seeded Monte-Carlo with exact binomial test",
-        "(1) every step of seeded runs: P equals the brute-force Pareto set of the proxy-recorded sample means; (2) seeded Monte-Carlo over independent noise streams of two-design instances with planted gap eps(1+eta) using the object's own default L, judged by an exact binomial test at level 1e-9 (sound for every seed), cross-validated by the closed-form orthant probability. Statistical exploration.",
+        "(1) every step of seeded runs (real and lattice-noise histories with exact ties): P equals the brute-force Pareto set of the proxy-recorded sample means; (2) seeded Monte-Carlo over independent noise streams of two-design instances with planted gap eps(1+eta) using the object's own default L -- cone angles 1..135 degrees, noise variances 1e-4..100 -- judged by an exact binomial test at level 1e-9 (sound for every seed), cross-validated by the closed-form orthant probability. Statistical exploration.",
         "Trusted: numpy Gaussian generator; the test only detects failure rates well above delta (power stated in evidence).",
         "5/C08",
     ),
@@ -68,7 +68,7 @@ CLAIMED = {
     ),
     "C11": (
         "deterministic simulation: per-call and per-round soundness/completeness monitor against a per-vertex LP oracle",
-        "Run-level form of the property: in every round of VOGP / eps-PAL / VOGP_AD runs each pessimistic comparison is sound against the oracle for every cone, complete for 2x2 cones outside the band, and the pessimistic set equals the oracle's for 2x2 cones. Exploration over run-reached rectangle pairs (flat, twin, tiny regions from the adversary).",
+        "Run-level form of the property: in every round of VOGP / eps-PAL / VOGP_AD runs each pessimistic comparison is sound against the oracle for every cone, complete for 2x2 cones outside the band, and the pessimistic set equals the oracle's for 2x2 cones. Exploration over run-reached rectangle pairs (flat, twin, tiny regions from the adversary) plus a declared seeded direct workload (dyadic / degenerate / stacked rectangles, K_f > m cones) that is reported separately as input generation.",
         "Trusted: per-vertex LP oracle with witness / multiplier certificates; band 1e-7 relative.",
         "5/C11",
     ),
@@ -80,7 +80,7 @@ CLAIMED = {
     ),
     "C15": (
         "deterministic simulation: Hypothesis stateful machine against a committed-data reference model with closed-form GP posterior",
-        "add_sample / update / clear_data / predict / hyper-parameter reports / factory helpers over the three GP model classes; the reference tracks the data committed at the last update and predicts by closed-form Cholesky conditioning on the Gram matrices. F13 faults: stale reads, clear without update, zero samples, single-point predict. Exploration with shrinking.",
+        "add_sample / update / clear_data / predict / hyper-parameter reports / factory helpers over the three GP model classes; the reference tracks the data committed at the last update and predicts by closed-form Cholesky conditioning under hyper-parameters read back from the gpytorch modules. F13 faults: stale reads, clear without update, zero samples, single-point predict, repeated inputs. Plus an in-run monitor: after every evaluating phase of real-GP algorithm runs the prediction equals the closed-form posterior of the reported training data. Exploration with shrinking.",
         "Trusted: closed-form posterior; well-conditioned hyper-parameter range; sizes below gpytorch's Cholesky limit.",
         "5/C15",
     ),
